@@ -2232,4 +2232,46 @@ def c01ExamplePat : Pat :=
 def c01ExampleEvs : List Event :=
   [⟨0, "A", [("x", .int 1), ("k", .int 1)]⟩, ⟨1, "B", [("x", .int 0), ("k", .int 1)]⟩, ⟨2, "B", [("x", .int 2), ("k", .int 1)]⟩]
 
+/-! ## run-count bound (Drop strategy) -/
+
+/-- every partition holds at most `n` runs -/
+def RunsBounded (n : Nat) (s : Eng) : Prop := ∀ k, (s.parts k).length ≤ n
+
+theorem stepEngine_bounded {p : Pat} {cfg : Cfg} {s : Eng} {e : Event} (h : RunsBounded cfg.maxRuns s) :
+    RunsBounded cfg.maxRuns (stepEngine p cfg s e).1 := by
+  intro k
+  rw [stepEngine_eq]
+  simp only []
+  have hpr := processRuns_length p cfg e ((s.parts (keyOf p e)).map (markNeg p e))
+  simp only [List.length_map] at hpr
+  have hk := h (keyOf p e)
+  by_cases hke : k = keyOf p e
+  · rw [if_pos hke]
+    unfold startRun
+    split
+    · split
+      · simp only []; omega
+      · split
+        · simp only [List.length_append, List.length_cons, List.length_nil]; omega
+        · simp only []; omega
+    · simp only []; omega
+  · rw [if_neg hke]
+    have := h k
+    simp only [List.length_map]; omega
+
+/-- **the number of active runs of a partition never exceeds `max_runs`** (default strategy `Drop`) -/
+theorem runFrom_bounded {p : Pat} {cfg : Cfg} : ∀ (evs : List Event) (s : Eng),
+    RunsBounded cfg.maxRuns s → RunsBounded cfg.maxRuns (runFrom p cfg s evs).1 := by
+  intro evs
+  induction evs with
+  | nil => intro s h; exact h
+  | cons e es ih =>
+    intro s h
+    unfold runFrom
+    exact ih _ (stepEngine_bounded h)
+
+theorem runAll_bounded (p : Pat) (cfg : Cfg) (evs : List Event) : RunsBounded cfg.maxRuns (runAll p cfg evs).1 := by
+  unfold runAll
+  exact runFrom_bounded evs Eng.init (by intro k; simp [Eng.init])
+
 end Varpulis.Sase
